@@ -6,3 +6,6 @@
 ; recurrence instantiated in the contract of structSpecs (sumBase / sumStep).
 (declare-fun diagSum (Int Int (_ BitVec 64)) (_ BitVec 64))
 ; fnSum(from, to): likewise for removed methods, over the visited method names.
+; remSum(from, to, S): number of "removing method" diagnostics prescribed for the
+; method names in set S (fold over the set; recurrence instantiated in the contract of Pass.service).
+(declare-fun remSum (Int Int (Array Str Bool)) (_ BitVec 64))
